@@ -777,14 +777,346 @@ Proof.
   destruct (string_loop (S (List.length (rest x2))) (pre ++ q) x2) as [value closed x3| |] eqn:Ec; try exact I.
   cbv zeta. cbn [tok_ok]. exists value. split; [reflexivity|]. change (tok_cm _) with false.
   destruct (string_loop_reads _ _ _ _ _ _ Ec) as [t [-> Hr3]].
-  eapply reads_same_r; [apply if_add_err_pos with (b := negb closed)|].
-  assert (Hx : (if closed then x3 else add_err (from_name (s "UNEXPECTED_EOF_STR") lv_error
-                  [mkhl (line x) (col x) (Some (zl ((pre ++ q) ++ t))) None;
-                   mkhl (line x) (col x + zl ((pre ++ q) ++ t)) (Some 1) (Some hint_string)]) x3) =
-               (if negb closed then add_err (from_name (s "UNEXPECTED_EOF_STR") lv_error
-                  [mkhl (line x) (col x) (Some (zl ((pre ++ q) ++ t))) None;
-                   mkhl (line x) (col x + zl ((pre ++ q) ++ t)) (Some 1) (Some hint_string)]) x3 else x3)) by (destruct closed; reflexivity).
-  rewrite Hx. clear Hx.
-  match goal with |- reads _ _ _ (if _ then add_err ?d _ else _) => idtac end.
-  rewrite <- app_assoc.
-Abort.
+  assert (Hr : reads false x ((pre ++ q) ++ t) x3).
+  { rewrite <- app_assoc. apply (reads_trans false x pre x1); [now apply (quote_prefix_reads 34%N quote_prefixes)|].
+    apply (reads_trans false x1 q x2); [apply (pop1_reads false false false); [assumption|apply tabs_ok_plain]|exact Hr3]. }
+  destruct closed; [exact Hr|]. eapply reads_same_r; [apply same_pos_add_err|exact Hr].
+Qed.
+
+Lemma parse_identifier_text_val x : match parse_identifier x with
+  | PTok t x' => exists v, reads false x v x' /\
+      match assoc v keywords with Some k => t = mktok k (line x) (col x) None | None => t = mktok (s "IDENTIFIER") (line x) (col x) (Some v) end
+  | _ => True end.
+Proof.
+  unfold parse_identifier. destruct (rest x) as [|c r] eqn:Er; [exact I|].
+  destruct (is_ident_start c); cbn [negb]; [|exact I].
+  destruct (pop1 false false x) as [v x1|x1|] eqn:Ep; cbn [of_popres]; try exact I.
+  destruct (ident_loop (S (List.length (rest x1))) v x1) as [value x2|e] eqn:Ei; [|exact I].
+  destruct (ident_loop_reads _ _ _ _ _ Ei) as [t [-> Hr]].
+  assert (Hrr : reads false x (v ++ t) x2).
+  { apply (reads_trans false x v x1); [apply (pop1_reads false false false); [assumption|apply tabs_ok_plain]|exact Hr]. }
+  destruct (assoc (v ++ t) keywords) as [k|] eqn:Ek; exists (v ++ t); (split; [exact Hrr|]); rewrite Ek; reflexivity.
+Qed.
+
+(* the dictionary: a token type determines its spelling *)
+Definition none_of_ws (k : str) : bool :=
+  negb (str_eqb k (s "MULT_COMMENT")) && negb (str_eqb k (s "SPACE")) && negb (str_eqb k (s "TAB")) && negb (str_eqb k (s "NEWLINE")).
+Lemma keywords_fact : forallb (fun kv => none_of_ws (snd kv) &&
+    match rassoc (snd kv) keywords with Some v => str_eqb v (fst kv) | None => false end) keywords = true.
+Proof. vm_compute. reflexivity. Qed.
+Lemma operators_fact : forallb (fun kv => none_of_ws (snd kv) &&
+    match rassoc (snd kv) keywords with Some _ => false | None => true end &&
+    match rassoc (snd kv) operators with Some v => str_eqb v (fst kv) | None => false end) operators = true.
+Proof. vm_compute. reflexivity. Qed.
+Lemma brackets_fact : forallb (fun kv => none_of_ws (snd kv) &&
+    match rassoc (snd kv) keywords with Some _ => false | None => true end &&
+    match rassoc (snd kv) operators with Some _ => false | None => true end &&
+    match rassoc (snd kv) brackets with Some v => str_eqb v (fst kv) | None => false end) brackets = true.
+Proof. vm_compute. reflexivity. Qed.
+
+Lemma none_of_ws_spec k : none_of_ws k = true ->
+  str_eqb k (s "MULT_COMMENT") = false /\ str_eqb k (s "SPACE") = false /\ str_eqb k (s "TAB") = false /\ str_eqb k (s "NEWLINE") = false.
+Proof. unfold none_of_ws. intros H. repeat (apply andb_true_iff in H as [H ?]). repeat split; now apply negb_true_iff. Qed.
+
+Lemma text_of_keyword v k l c : assoc v keywords = Some k ->
+  text_of (mktok k l c None) = Some v /\ tok_cm (mktok k l c None) = false.
+Proof.
+  intros H. apply assoc_in in H. pose proof keywords_fact as F. rewrite forallb_forall in F. specialize (F _ H). cbn [fst snd] in F.
+  apply andb_true_iff in F as [Fw Fr]. destruct (none_of_ws_spec _ Fw) as (A & B & C & D).
+  unfold text_of, tok_cm. cbn [t_val t_type]. rewrite A, B, C, D.
+  destruct (rassoc k keywords) as [v'|]; [|discriminate]. apply str_eqb_eq in Fr. subst. now split.
+Qed.
+Lemma text_of_operator v k l c : assoc v operators = Some k ->
+  text_of (mktok k l c None) = Some v /\ tok_cm (mktok k l c None) = false.
+Proof.
+  intros H. apply assoc_in in H. pose proof operators_fact as F. rewrite forallb_forall in F. specialize (F _ H). cbn [fst snd] in F.
+  apply andb_true_iff in F as [F Fr]. apply andb_true_iff in F as [Fw Fk]. destruct (none_of_ws_spec _ Fw) as (A & B & C & D).
+  unfold text_of, tok_cm. cbn [t_val t_type]. rewrite A, B, C, D.
+  destruct (rassoc k keywords); [discriminate|].
+  destruct (rassoc k operators) as [v'|]; [|discriminate]. apply str_eqb_eq in Fr. subst. now split.
+Qed.
+Lemma text_of_bracket v k l c : assoc v brackets = Some k ->
+  text_of (mktok k l c None) = Some v /\ tok_cm (mktok k l c None) = false.
+Proof.
+  intros H. apply assoc_in in H. pose proof brackets_fact as F. rewrite forallb_forall in F. specialize (F _ H). cbn [fst snd] in F.
+  apply andb_true_iff in F as [F Fr]. apply andb_true_iff in F as [F Fo]. apply andb_true_iff in F as [Fw Fk].
+  destruct (none_of_ws_spec _ Fw) as (A & B & C & D).
+  unfold text_of, tok_cm. cbn [t_val t_type]. rewrite A, B, C, D.
+  destruct (rassoc k keywords); [discriminate|]. destruct (rassoc k operators); [discriminate|].
+  destruct (rassoc k brackets) as [v'|]; [|discriminate]. apply str_eqb_eq in Fr. subst. now split.
+Qed.
+
+Lemma parse_identifier_text x : tok_ok x (parse_identifier x).
+Proof.
+  pose proof (parse_identifier_text_val x) as H. destruct (parse_identifier x) as [|t x'|]; try exact I.
+  destruct H as [v [Hr Ht]]. cbn [tok_ok]. destruct (assoc v keywords) as [k|] eqn:Ek; subst t.
+  - destruct (text_of_keyword v k (line x) (col x) Ek) as [E1 E2]. exists v. rewrite E2. now split.
+  - exists v. split; [reflexivity|exact Hr].
+Qed.
+
+Lemma op_token_text x r : (forall t x1, r = PopOk t x1 -> reads false x t x1) -> tok_ok x (op_token x r).
+Proof.
+  intros H. unfold op_token. apply of_popres_ok. intros t x1 E. destruct (assoc t operators) as [ty|] eqn:Ea; [|exact I].
+  cbn [tok_ok]. destruct (text_of_operator t ty (line x) (col x) Ea) as [E1 E2]. exists t. rewrite E2. split; [exact E1|now apply H].
+Qed.
+
+Lemma popn0_reads n x t x1 : popn n x [] = PopOk t x1 -> reads false x t x1.
+Proof. intros H. destruct (popn_reads _ _ _ _ _ H) as [t' [-> Hr]]. exact Hr. Qed.
+
+Lemma parse_operator_text x : tok_ok x (parse_operator x).
+Proof.
+  unfold parse_operator. destruct (peek1 (rest x)) as [[char n]|]; [|exact I].
+  destruct (is_substr char op_start_chars); cbn [negb]; [|exact I]. cbv zeta.
+  assert (H1 : tok_ok x (op_token x (pop1 false false x))).
+  { apply op_token_text. intros t x1 E. apply (pop1_reads false false false); [assumption|apply tabs_ok_plain]. }
+  assert (H2 : tok_ok x (op_token x (popn 2 x []))) by (apply op_token_text; intros t x1 E; now apply (popn0_reads 2)).
+  assert (H3 : tok_ok x (op_token x (popn 3 x []))) by (apply op_token_text; intros t x1 E; now apply (popn0_reads 3)).
+  destruct (is_substr char op_multi_chars); [|exact H1].
+  destruct (match raw_peek 3 (rest x) with Some r => str_in r op_three | None => false end); [exact H3|].
+  destruct (peek2 (rest x)) as [[temp n2]|]; [|exact I].
+  destruct (str_in temp op_two); [exact H2|].
+  destruct (str_eqb temp (char ++ s "=") && _); [exact H2|].
+  destruct (is_substr char op_double_chars && str_eqb temp (char ++ char)); [exact H2|exact H1].
+Qed.
+
+Lemma parse_brackets_text x : tok_ok x (parse_brackets x).
+Proof.
+  unfold parse_brackets. destruct (peek1 (rest x)) as [[char n]|]; [|exact I].
+  destruct (assoc char brackets); [|exact I]. apply of_popres_ok. intros v x1 E.
+  destruct (assoc v brackets) as [ty|] eqn:Ea; [|exact I]. cbn [tok_ok].
+  destruct (text_of_bracket v ty (line x) (col x) Ea) as [E1 E2]. exists v. rewrite E2. split; [exact E1|].
+  apply (pop1_reads false false false); [assumption|apply tabs_ok_plain].
+Qed.
+
+Lemma parse_line_comment_text x : tok_ok x (parse_line_comment x).
+Proof.
+  unfold parse_line_comment. destruct (raw_peek 2 (rest x)) as [r|]; [|exact I].
+  destruct (str_eqb r (s "//")); cbn [negb]; [|exact I]. apply of_popres_ok. intros v x1 E.
+  destruct (lc_loop (S (List.length (rest x1))) v x1) as [value x2| |] eqn:El; try exact I.
+  destruct (lc_loop_reads _ _ _ _ _ El) as [t [-> Hr]]. cbn [tok_ok]. exists (v ++ t). split; [reflexivity|].
+  change (tok_cm _) with false. apply (reads_trans false x v x1); [now apply (popn0_reads 2)|exact Hr].
+Qed.
+
+Lemma same_pos_check_bad_prefix name bucket l0 c0 p c x : same_pos x (check_bad_prefix name bucket l0 c0 p c x).
+Proof. unfold check_bad_prefix. destruct (bad_digit_hls _ _ _ _ _); [apply same_pos_refl|apply same_pos_add_err]. Qed.
+
+Lemma parse_integer_literal_text uw ud x : tok_ok x (parse_integer_literal uw ud x).
+Proof.
+  unfold parse_integer_literal. destruct (int_match uw ud (rest x)) as [[[p c] sfx]|]; [|exact I]. cbv zeta.
+  apply of_popres_ok. intros slice x1 E. cbn [tok_ok]. exists slice. split; [reflexivity|]. change (tok_cm _) with false.
+  eapply reads_same_r; [|exact (popn0_reads _ _ _ _ E)].
+  eapply same_pos_trans.
+  - instantiate (1 := if str_in sfx integer_suffixes then x1 else _).
+    destruct (str_in sfx integer_suffixes); [apply same_pos_refl|].
+    destruct sfx as [|c1 sfx']; [apply same_pos_refl|]. destruct (chr_in c1 (s "+-")); apply same_pos_add_err.
+  - destruct (str_in p [s "0b"; s "0B"]); [apply same_pos_check_bad_prefix|].
+    destruct (str_eqb p (s "0")); [apply same_pos_check_bad_prefix|].
+    destruct (str_in p [s "0x"; s "0X"]); [apply same_pos_check_bad_prefix|apply same_pos_refl].
+Qed.
+
+Lemma parse_float_literal_text uw ud x : tok_ok x (parse_float_literal uw ud x).
+Proof.
+  unfold parse_float_literal. destruct (rest x) as [|a r] eqn:Er; [exact I|]. cbv zeta.
+  match goal with |- tok_ok _ (match ?m with Some _ => _ | None => PNone end) => destruct m as [[ty [[c e] sfx]]|] end; [|exact I].
+  match goal with |- tok_ok _ (match ?v with Some err => _ | None => PNone end) => destruct v as [err|] end; [|exact I].
+  apply of_popres_ok. intros slice x2 E. cbn [tok_ok]. exists slice. split; [reflexivity|]. change (tok_cm _) with false.
+  eapply reads_same_l; [|exact (popn0_reads _ _ _ _ E)].
+  destruct err; [apply same_pos_sym, same_pos_add_err|apply same_pos_refl].
+Qed.
+
+(* ------------------------------------------------------------------ a first character that starts no di/trigraph *)
+Lemma std_digraph_head a b t : std_digraph a b = Some t -> chr_in a [60; 37; 58]%N = true.
+Proof.
+  unfold std_digraph. destruct a as [|p]; [discriminate|].
+  repeat (destruct p as [p|p|]; try discriminate); intros _; reflexivity.
+Qed.
+
+Lemma peek1_nohead' c r : chr_in c [63; 60; 37; 58]%N = false -> peek1 (c :: r) = Some ([c], 1%nat).
+Proof.
+  intros H. unfold peek1.
+  destruct (assoc (firstn 3 (c :: r)) trigraphs) as [v|] eqn:E3.
+  { exfalso. destruct (assoc_trigraph_std _ _ E3) as (a & b & c' & t & Hk & Hs & _).
+    assert (a = c) by (destruct r as [|? [|? ?]]; cbn in Hk; inversion Hk; reflexivity). subst a.
+    unfold std_trigraph in Hs. destruct (N.eqb_spec c 63) as [->|]; [discriminate|]. cbn in Hs. discriminate. }
+  destruct (assoc (firstn 2 (c :: r)) digraphs) as [v|] eqn:E2; [|reflexivity].
+  exfalso. destruct (assoc_digraph_std _ _ E2) as (a & b & t & Hk & Hs & _).
+  assert (a = c) by (destruct r as [|? ?]; cbn in Hk; inversion Hk; reflexivity). subst a.
+  apply std_digraph_head in Hs. cbn [chr_in existsb] in *. lia.
+Qed.
+
+Lemma pop_inner_S f us ue x : pop_inner (S f) us ue x =
+  match peek1 (rest x) with
+  | None => PopEOF x
+  | Some (char, size) =>
+      if negb (is_bs char) then pop_finish us x char size
+      else
+        match peek1 (skipn size (rest x)) with
+        | None => pop_finish us x char size
+        | Some (temp, tsize) =>
+            if negb (is_nl temp) then
+              if ue then let '(char', size', x') := pop_escape x char size temp tsize in pop_finish us x' char' size'
+              else pop_finish us x char size
+            else
+              let x' := set_pos (line x + 1) 1 (advance (S size) x) in
+              match peek1 (rest x') with None => PopEOF x' | Some _ => pop_inner f us ue x' end
+        end
+  end.
+Proof. reflexivity. Qed.
+
+Lemma pop1_first us ue x c r : rest x = c :: r -> chr_in c [63; 60; 37; 58; 92]%N = false ->
+  pop1 us ue x = pop_finish us x [c] 1.
+Proof.
+  intros Hr Hc. unfold pop1, pop_loop_bound. rewrite pop_inner_S, Hr, peek1_nohead'; [|cbn [chr_in existsb] in *; lia].
+  unfold is_bs, bs. cbn [str_eqb]. cbn [chr_in existsb] in Hc. replace (c =? 92)%N with false by lia. reflexivity.
+Qed.
+
+(* a plain character is popped as itself *)
+Lemma pop1_simple cm ue x c r : rest x = c :: r -> simplec c = true ->
+  exists X, pop1 false ue x = PopOk [c] X /\ rest X = r /\ reads cm x [c] X.
+Proof.
+  intros Hr Hc. unfold simplec in Hc. cbn [chr_in existsb] in Hc.
+  rewrite (pop1_first false ue x c r Hr) by (cbn [chr_in existsb]; lia).
+  assert (E1 : is_nl [c] = false) by (rewrite is_nl_10; lia).
+  assert (E2 : ends_with [9%N] [c] = false) by (unfold ends_with; cbn [List.length Nat.leb Nat.sub skipn str_eqb andb]; lia).
+  destruct (pf_text false x [c] 1 E1 E2) as (X & E & R & O & C). exists X. split; [exact E|]. split; [now rewrite R, Hr|].
+  apply (reads_single cm false x c 1%nat); [rewrite Hr; apply logical1_nohead; cbn [chr_in existsb]; lia|exact E|].
+  right. split; [reflexivity|]. intros [H|[]]. lia.
+Qed.
+
+Lemma parse_whitespace_text x : tok_ok x (parse_whitespace x).
+Proof.
+  unfold parse_whitespace. destruct (rest x) as [|c r] eqn:Er; [exact I|].
+  destruct (chr_in c ws_chars); cbn [negb]; [|exact I]. cbv zeta.
+  destruct (N.eqb_spec c 32) as [->|H32].
+  { destruct (pop1_simple false false x 32%N r Er eq_refl) as (X & E & _ & Hr). rewrite E. cbn [of_popres tok_ok].
+    exists [32%N]. split; [reflexivity|exact Hr]. }
+  destruct (N.eqb_spec c 9) as [->|H9].
+  { rewrite (pop1_first false false x 9%N r Er eq_refl). destruct (pf_tab false x 1) as (X & E & R & O & C).
+    rewrite E. cbn [of_popres tok_ok]. exists [9%N]. split; [reflexivity|].
+    apply (reads_single false false x 9%N 1%nat); [rewrite Er; now apply logical1_nohead|exact E|now left]. }
+  destruct (N.eqb_spec c 10) as [->|H10]; [|exact I].
+  rewrite (pop1_first false false x 10%N r Er eq_refl). destruct (pf_nl false x 1) as (X & E & R & O & C).
+  rewrite E. cbn [of_popres tok_ok]. exists [10%N]. split; [reflexivity|].
+  apply (reads_single false false x 10%N 1%nat); [rewrite Er; now apply logical1_nohead|exact E|now left].
+Qed.
+
+Lemma parse_multi_line_comment_text x : tok_ok x (parse_multi_line_comment x).
+Proof.
+  unfold parse_multi_line_comment. destruct (raw_peek 2 (rest x)) as [r|] eqn:Ep; [|exact I].
+  destruct (str_eqb r (s "/*")) eqn:Es; cbn [negb]; [|exact I].
+  apply str_eqb_eq in Es. subst r.
+  assert (Hr : exists r', rest x = 47%N :: 42%N :: r').
+  { unfold raw_peek in Ep. destruct (rest x) as [|a [|b r']]; try discriminate; cbn in Ep; inversion Ep. now exists r'. }
+  destruct Hr as [r' Hr].
+  destruct (pop1_simple true false x 47%N (42%N :: r') Hr eq_refl) as (X1 & E1 & R1 & Hr1).
+  destruct (pop1_simple true false X1 42%N r' R1 eq_refl) as (X2 & E2 & R2 & Hr2).
+  assert (Epop : popn 2 x [] = PopOk (s "/*") X2).
+  { cbn [popn]. rewrite E1. cbn [app]. rewrite E2. reflexivity. }
+  rewrite Epop. cbn [of_popres].
+  destruct (mc_loop (S (List.length (rest X2))) (s "/*") X2) as [value eof x2| |] eqn:El; try exact I.
+  destruct (mc_loop_reads _ _ _ _ _ El) as [t [-> Hr3]]. cbn [tok_ok]. exists (s "/*" ++ t). split; [reflexivity|].
+  change (tok_cm _) with true.
+  assert (Hall : reads true x (s "/*" ++ t) x2).
+  { change (s "/*" ++ t) with ([47%N] ++ [42%N] ++ t). apply (reads_trans true x [47%N] X1); [exact Hr1|].
+    apply (reads_trans true X1 [42%N] X2); [exact Hr2|exact Hr3]. }
+  destruct eof; [eapply reads_same_r; [apply same_pos_add_err|exact Hall]|exact Hall].
+Qed.
+
+(* ------------------------------------------------------------------ dispatch, step, the whole tokenizer *)
+Lemma run_parser_text uw ud name x : tok_ok x (run_parser uw ud name x).
+Proof.
+  unfold run_parser.
+  repeat match goal with |- tok_ok _ (if ?b then _ else _) => destruct b end;
+    auto using parse_float_literal_text, parse_integer_literal_text, parse_char_literal_text, parse_string_literal_text,
+      parse_identifier_text, parse_whitespace_text, parse_line_comment_text, parse_multi_line_comment_text,
+      parse_operator_text, parse_brackets_text.
+  exact I.
+Qed.
+
+Lemma try_parsers_text uw ud : forall names x, tok_ok x (try_parsers uw ud names x).
+Proof.
+  induction names as [|n names IH]; intros x; cbn [try_parsers]; [exact I|].
+  pose proof (run_parser_text uw ud n x) as H. destruct (run_parser uw ud n x); [apply IH|exact H|exact I].
+Qed.
+
+Lemma step_text uw ud x t lo hi x' : step uw ud x = StepItem (ITok t lo hi) x' ->
+  tok_ok x (PTok t x') /\ lo = off x /\ hi = off x'.
+Proof.
+  unfold step. pose proof (try_parsers_text uw ud parsers x) as H.
+  destruct (rest x) as [|c r].
+  - destruct (try_parsers uw ud parsers x) as [|t0 x0|e]; try discriminate. intros E; inversion E; subst. now repeat split.
+  - destruct (at_splice (c :: r)).
+    + destruct (peek1 (c :: r)) as [[? ?]|]; discriminate.
+    + destruct (try_parsers uw ud parsers x) as [|t0 x0|e]; try discriminate. intros E; inversion E; subst. now repeat split.
+Qed.
+
+Lemma tok_ok_c10 src E x t x' : wf (src, E) x -> tok_ok x (PTok t x') -> c10_tok_ok src t (off x) (off x') = true.
+Proof.
+  intros Hw [text [Ht Hr]]. unfold c10_tok_ok. rewrite Ht. fold (tok_cm t).
+  pose proof (wf_true_pos _ _ Hw) as Htp. cbn [fst] in Htp. rewrite Htp. cbn [snd].
+  unfold sub. rewrite (wf_skipn src E x Hw). apply NM_norm_ok. now apply reads_NM.
+Qed.
+
+Section Text.
+  Variable uw ud : N -> bool.
+  Variable src : str.
+
+  Definition item_text_ok (i : item) : Prop :=
+    match i with ITok t lo hi => c10_tok_ok src t lo hi = true | _ => True end.
+
+  Lemma lex_loop_text : forall fuel E x acc items xf, wf (src, E) x ->
+    lex_loop uw ud fuel x acc = Ok (items, xf) -> (forall i, In i acc -> item_text_ok i) ->
+    forall i, In i items -> item_text_ok i.
+  Proof.
+    induction fuel as [|fuel IH]; intros E x acc items xf Hw; cbn [lex_loop]; [discriminate|].
+    pose proof (step_post_holds (src, E) uw ud x Hw) as Hp.
+    destruct (step uw ud x) as [|i x'|e] eqn:Est; [| |discriminate].
+    - intros Eq Hacc j Hj. inversion Eq; subst. apply Hacc. now apply in_rev.
+    - intros Eq Hacc. cbn in Hp. destruct Hp as [Hw' _]. apply (IH E x' (i :: acc) items xf Hw' Eq).
+      intros j [<-|Hj]; [|now apply Hacc].
+      destruct i as [t lo hi|lo|lo hi]; cbn [item_text_ok]; try exact I.
+      destruct (step_text uw ud x t lo hi x' Est) as [Hok [-> ->]]. now apply (tok_ok_c10 src E).
+  Qed.
+
+  (* C10, the token-text clause, for every input and every token *)
+  Theorem c10_text items xf : lex uw ud src = Ok (items, xf) ->
+    forall t lo hi, In (ITok t lo hi) items -> c10_tok_ok src t lo hi = true.
+  Proof.
+    intros H t lo hi Hin. unfold lex in H.
+    exact (lex_loop_text _ [] (init src) [] items xf (wf_init src) H (fun i (F : In i []) => match F with end) (ITok t lo hi) Hin).
+  Qed.
+
+  (* ... hence the full executable statement c10_ok *)
+  Theorem c10_full items xf : lex uw ud src = Ok (items, xf) -> c10_ok src items (errs xf) = true.
+  Proof.
+    intros H. destruct (lex_positions_and_tiling uw ud src items xf H) as [Ht [_ [_ [_ Hr]]]].
+    unfold c10_ok. rewrite Ht. cbn [andb]. apply forallb_forall. intros i Hi.
+    rewrite forallb_forall in Hr. specialize (Hr i Hi).
+    destruct i as [t lo hi|lo|lo hi]; cbn [c10_item_ok]; [now apply (c10_text items xf H)|exact Hr|exact Hr].
+  Qed.
+End Text.
+
+(* ------------------------------------------------------------------ the statement is neither vacuous nor trivially true:
+   evaluated through lex + c10_ok on the tricky inputs (and the specification rejects a wrong text) *)
+Definition c10_eval (src : str) : bool :=
+  match lex (fun _ => false) (fun _ => false) src with Ok (items, xf) => c10_ok src items (errs xf) | _ => false end.
+
+Example c10_tricky_inputs :
+  (* escaped trigraph / digraph inside a string; \\ followed by a real newline inside a string (pair kept verbatim) *)
+  c10_eval ([34; 97; 92; 63; 63; 47; 98; 34]%N ++ s ";") = true /\
+  c10_eval ([34; 92; 60; 58; 34]%N) = true /\
+  c10_eval ([34; 97; 92; 92; 10; 98; 34]%N) = true /\
+  (* a line splice inside an identifier, inside an operator, a trigraph splice *)
+  c10_eval (s "ab" ++ [92; 10]%N ++ s "cd = 1;") = true /\
+  c10_eval (s "a +" ++ [92; 10]%N ++ s "= b") = true /\
+  c10_eval (s "in" ++ [63; 63; 47; 10]%N ++ s "t x") = true /\
+  (* tabs in a block comment: after a splice (column 1), after text, escaped tab in a character constant *)
+  c10_eval (s "/*" ++ [92; 10; 9]%N ++ s "*/") = true /\
+  c10_eval (s "x" ++ [92; 10]%N ++ s "/*a" ++ [9]%N ++ s "b" ++ [9; 10; 9]%N ++ s "*/") = true /\
+  c10_eval ([39; 92; 9; 39]%N) = true /\
+  c10_eval (s "// c" ++ [9]%N ++ s "<:" ++ [92; 10]%N ++ s "d") = true /\
+  (* the specification is not trivially satisfied: a wrong text, a dropped character, an unexpanded comment tab *)
+  norm_ok false 1 (s "a<:b") (s "a[b") = true /\ norm_ok false 1 (s "a<:b") (s "a<:b") = false /\
+  norm_ok false 1 (s "abc") (s "ac") = false /\
+  norm_ok true 3 [9%N] (s "  ") = true /\ norm_ok true 3 [9%N] [9%N] = false /\ norm_ok false 3 [9%N] [9%N] = true.
+Proof. vm_compute. repeat split; reflexivity. Qed.
